@@ -75,6 +75,8 @@ def _shift_block(b, off, boff, ret_to, dest):
             t['callee'] = c
     elif k == 'assert':
         t['cond'] = _shift_operand(t['cond'], off)
+        if isinstance(t.get('msg'), dict):
+            t['msg'] = {mk: (_shift_operand(mv, off) if isinstance(mv, dict) and ('cp' in mv or 'mv' in mv) else mv) for mk, mv in t['msg'].items()}
     elif k == 'drop':
         t['place'] = _shift_place(t['place'], off)
     elif k == 'return':
